@@ -78,6 +78,18 @@ CHECKS = {
              "predicates are covered by C17's synonym checks, not here; one recorded finding (static-ref shadow).",
         technique="TLA+ spec (FmtBounds) + TLC exhaustive cases, replay: where-clause sets in-process + rustc trait resolution",
         design="4 (C04)"),
+    "C02": dict(
+        text="TLC model-checks FmtText.tla (documented bindings - field itself when named in the literal, a reference inside "
+             "argument expressions - vs the transcription of `let name = &self.member`, verbatim hand-over, "
+             "additional_deref_args and the transparent path) on every literal of up to 2 (quick) / 3 (thorough) pieces x "
+             "argument lists; each case is compiled with the real derive and its output compared in the same process with "
+             "`format!` on the same literal/arguments (the property's own reference) and piece-wise with DocText; implicit "
+             "bodies (single field under 8 traits, unit names, rename_all table) are replayed too.",
+        note="all fields are `&'static i32` (implement all nine traits); shapes and derived traits rotate by hash; "
+             "rename_all expectations are a fixed table for 3 unambiguous names (convert_case's treatment of other names is "
+             "outside the property).",
+        technique="TLA+ spec (FmtText) + TLC exhaustive literals/argument lists, replay against format! in-process",
+        design="4 (C02)"),
 }
 
 NOT_YET = {}
